@@ -531,6 +531,7 @@ class _LibrationDynamicsService(_DynamicsServiceBase):
         """
         self._eigendecomposition_config = config
         self._generator = None  # Invalidate cache to trigger recreation
+        self.reset()  # results computed with the previous configuration are stale
     
     @property
     def eigendecomposition_options(self) -> "EigenDecompositionOptions":
